@@ -241,6 +241,23 @@ Fixpoint grun (g : gst) (os : list gop) : gst * list gout :=
   | o :: r => let '(g1, x) := gstep g o in let '(g2, xs) := grun g1 r in (g2, x :: xs)
   end.
 
+(* ---------- one call as a whole: guard and collector together ---------- *)
+(* MeasureClockOffsets = length check and CAS (begin_call), then the collector; the deferred
+   reset (end_call) runs when collectMeasurements returns, i.e. with the transition Quit or Exit. *)
+Record gc := { gc_g : gst; gc_s : st }.
+Definition gc_init (sc : scen) (id : nat) (g : gst) : option gc :=
+  match gstep g (GCall id (length (s_ms0 sc)) (nclk sc)) with
+  | (g', GO_call Started) => Some {| gc_g := g'; gc_s := init sc |}
+  | _ => None
+  end.
+Definition gc_step (sc : scen) (id : nat) (x : gc) (l : label) : option gc :=
+  match step sc (gc_s x) l with
+  | None => None
+  | Some s' =>
+      Some {| gc_g := match l with Quit | Exit => fst (gstep (gc_g x) (GReturn id)) | _ => gc_g x end;
+              gc_s := s' |}
+  end.
+
 (* ---------- property oracle (written from the property text, uses only the scenario) ---------- *)
 
 Fixpoint meas_list_eqb (a b : list meas) : bool :=
@@ -274,6 +291,12 @@ Definition slice_ok (sc : scen) (ms' : list meas) : bool :=
   existsb (fun j => meas_list_eqb (skipn j ms') (skipn j (s_ms0 sc)) && front_ok sc (firstn j ms'))
           (seq 0 (S (length ms'))).
 
+(* the same when the count j returned by collectMeasurements is observed: the front is exactly
+   the first j entries *)
+Definition C16_raw_ok (sc : scen) (r : Z) (j : nat) (ms' : list meas) : bool :=
+  (r <=? dl sc) && Nat.eqb (length ms') (length (s_ms0 sc)) && Nat.leb j (length ms') &&
+  meas_list_eqb (skipn j ms') (skipn j (s_ms0 sc)) && front_ok sc (firstn j ms').
+
 (* a round that returned at time r with the slice ms' *)
 Definition C16_round_ok (sc : scen) (r : Z) (ms' : list meas) : bool :=
   (r <=? dl sc) && slice_ok sc ms'.
@@ -284,6 +307,16 @@ Definition all_done_by (sc : scen) (tp : Z) : bool :=
   forallb (fun k => match ctime sc k with Some t => t <=? tp | None => false end) (seq 0 (nclk sc)).
 Definition C16_leak_ok (sc : scen) (r tp : Z) (alive : Z) : bool :=
   if all_done_by sc tp && (r <=? tp) then alive =? 0 else true.
+
+(* More generally, at any instant tp (settled): the goroutines of the round are accounted for by
+   the clocks whose calls have not returned by tp -- one producer each, plus one goroutine waiting
+   for them (the drainer once the collector has returned, the collector before) *)
+Definition still_running (sc : scen) (tp : Z) (k : nat) : bool :=
+  match ctime sc k with Some t => tp <? t | None => true end.
+Definition C16_alive_bound (sc : scen) (r tp : Z) : Z :=
+  let wn := Z.of_nat (length (filter (still_running sc tp) (seq 0 (nclk sc)))) in
+  if r <=? tp then (if 0 <? wn then wn + 1 else 0) else wn + 1.
+Definition C16_alive_ok (sc : scen) (r tp : Z) (alive : Z) : bool := alive <=? C16_alive_bound sc r tp.
 
 (* the in-progress guard, on an observed history of one collector:
    calls in start order (start time, lengths equal?, outcome, return time if it returned) *)
